@@ -238,7 +238,7 @@ pub fn gen_case(_ctx: &Ctx, bases: &Bases, tape: &[u8]) -> FmtCase {
             let (p, s) = &bases.corpus[t.below(bases.corpus.len())];
             (s.clone(), json!({"base": p}))
         }
-        | 5..=7 => {
+        | 5..=6 => {
             let depth = 2 + t.below(5);
             let toks = {
                 let mut g = surfgen::Gen::new(&mut t, 90, false);
@@ -246,6 +246,41 @@ pub fn gen_case(_ctx: &Ctx, bases: &Bases, tape: &[u8]) -> FmtCase {
                 g.out
             };
             (surfgen::layout(&mut t, &toks, true), json!({"base": "generated surface term"}))
+        }
+        | 7 => {
+            // type- and pattern-heavy terms: `( x : T )`, `fn p => x`, `let p : T = x in x`
+            let depth = 2 + t.below(4);
+            let shape = t.below(3);
+            let toks = {
+                let mut g = surfgen::Gen::new(&mut t, 90, false);
+                match shape {
+                    | 0 => {
+                        g.out.push("(".into());
+                        g.out.push("x".into());
+                        g.out.push(":".into());
+                        g.ty(depth);
+                        g.out.push(")".into());
+                    }
+                    | 1 => {
+                        g.out.push("fn".into());
+                        g.pattern(depth);
+                        g.out.push("=>".into());
+                        g.out.push("x".into());
+                    }
+                    | _ => {
+                        g.out.push("let".into());
+                        g.pattern(depth.min(3));
+                        g.out.push(":".into());
+                        g.ty(depth);
+                        g.out.push("=".into());
+                        g.out.push("x".into());
+                        g.out.push("in".into());
+                        g.out.push("x".into());
+                    }
+                }
+                g.out
+            };
+            (surfgen::layout(&mut t, &toks, true), json!({"base": "generated type/pattern-heavy term"}))
         }
         | _ => {
             let g = h::generate(&tape[t.pos.min(tape.len())..], &Cfg::quick());
